@@ -3,7 +3,6 @@ package dedup
 
 import (
 	"errors"
-	"sync"
 	"time"
 
 	"github.com/andres-erbsen/clock"
@@ -11,53 +10,204 @@ import (
 	verif "github.com/uber/kraken/zzverif"
 )
 
-// VerifRequestCacheSingleFlight: concurrent Start calls on one key never run
-// two requests at the same time; a Start during a pending request reports
-// ErrRequestPending and does not run the request.
+// API-only harnesses of RequestCache (NewRequestCache, SetNotFound, Start).
+
+var (
+	verifErrBoom     = errors.New("boom")
+	verifErrNotFound = errors.New("not found")
+)
+
+const (
+	verifErrorTTL    = 10 * time.Second
+	verifNotFoundTTL = 20 * time.Second
+)
+
+// verifReq is a request whose completion is controlled by the harness: it
+// blocks on gate, so that "a request is pending" is a fact and not a race.
+type verifReq struct {
+	gate     chan struct{}
+	done     chan struct{}
+	result   error
+	runs     int
+	inflight *int
+	maxSeen  *int
+}
+
+func verifNewReq(result error, inflight, maxSeen *int) *verifReq {
+	return &verifReq{gate: make(chan struct{}), done: make(chan struct{}), result: result, inflight: inflight, maxSeen: maxSeen}
+}
+
+func (q *verifReq) run() error {
+	q.runs++
+	*q.inflight++
+	if *q.inflight > *q.maxSeen {
+		*q.maxSeen = *q.inflight
+	}
+	<-q.gate
+	*q.inflight--
+	close(q.done)
+	return q.result
+}
+
+// verifBusyClock: a mock clock on which every After() has already elapsed, so
+// that "the busy timeout passed while waiting for a worker" needs no second
+// thread racing to advance the clock. (With a free worker both select cases
+// are ready and either may be taken, as in Go.)
+type verifBusyClock struct{ *clock.Mock }
+
+func (c verifBusyClock) After(d time.Duration) <-chan time.Time {
+	ch := make(chan time.Time, 1)
+	ch <- c.Now()
+	return ch
+}
+
+func verifNewCache(clk clock.Clock, workers int) *RequestCache {
+	rc := NewRequestCache(RequestCacheConfig{
+		NumWorkers: workers, ErrorTTL: verifErrorTTL, NotFoundTTL: verifNotFoundTTL,
+		CleanupInterval: 5 * time.Second, BusyTimeout: time.Minute,
+	}, clk, tally.NoopScope)
+	rc.SetNotFound(func(err error) bool { return err == verifErrNotFound })
+	return rc
+}
+
+// VerifRequestCachePendingAndCachedError: a Start while the request is pending
+// reports ErrRequestPending and does not run; after the request failed, starts
+// within the TTL (error TTL or not-found TTL) report the cached error and do
+// not run; after it succeeded or the TTL passed the next start runs again. At
+// most one execution is in flight for the key at any time.
+func VerifRequestCachePendingAndCachedError() {
+	verif.Option("max_preempt", verif.Bound("preemptions", 1, 2))
+	clk := clock.NewMock()
+	rc := verifNewCache(clk, 4)
+	inflight, maxSeen := 0, 0
+
+	outcome := verif.Choice("first_request_outcome", 3)
+	var result error
+	ttl := verifErrorTTL
+	switch outcome {
+	case 1:
+		result = verifErrBoom
+	case 2:
+		result, ttl = verifErrNotFound, verifNotFoundTTL
+	}
+	first := verifNewReq(result, &inflight, &maxSeen)
+	second := verifNewReq(nil, &inflight, &maxSeen)
+	otherInflight, otherMax := 0, 0
+	other := verifNewReq(nil, &otherInflight, &otherMax)
+
+	verif.Assert("first-start-accepted", rc.Start("k", first.run) == nil)
+	// the first request cannot complete before the gate opens: it is pending
+	verif.Assert("start-while-pending-reports-pending", rc.Start("k", second.run) == ErrRequestPending)
+	verif.Assert("pending-key-does-not-block-other-keys", rc.Start("other", other.run) == nil)
+	close(other.gate)
+	close(first.gate)
+	<-first.done
+
+	// time passes (whole seconds, 0..30 s). The error is recorded by the runner
+	// goroutine at time 0 or, if it is slow, after the clock moved: its expiry is
+	// at least ttl, so up to ttl it is certainly unexpired. What happens after
+	// expiry is not part of the statement (covered, not asserted).
+	dt := verif.IntRange("seconds_later", 0, 30)
+	clk.Add(time.Duration(dt) * time.Second)
+	r := rc.Start("k", second.run)
+	// the cache may still be between "request returned" and "result recorded"
+	stillRecording := r == ErrRequestPending
+	verif.Cover("result-recorded-before-next-start", !stillRecording)
+	if !stillRecording {
+		withinTTL := time.Duration(dt)*time.Second <= ttl
+		switch {
+		case outcome == 0:
+			verif.Assert("after-success-next-start-runs", r == nil)
+		case withinTTL:
+			verif.Cover("cached-error-reported", true)
+			verif.Assert("unexpired-error-is-reported", r == result)
+		default:
+			verif.Cover("error-expired-and-request-runs-again", r == nil)
+		}
+	}
+	if r == nil {
+		close(second.gate)
+		<-second.done
+	}
+	verif.Assert("at-most-one-in-flight-per-key", maxSeen <= 1 && otherMax <= 1 && second.runs <= 1 && other.runs <= 1)
+	verif.Assert("first-ran-once", first.runs == 1)
+	if r != nil {
+		verif.Assert("rejected-start-never-runs", second.runs == 0)
+	}
+}
+
+// VerifRequestCacheSingleFlight: two requests for one key started back to back
+// while the runner goroutines interleave freely: never two in flight, a
+// request runs only if its Start was accepted, and exactly once.
 func VerifRequestCacheSingleFlight() {
 	verif.Option("max_preempt", verif.Bound("preemptions", 2, 3))
 	clk := clock.NewMock()
-	rc := NewRequestCache(RequestCacheConfig{NumWorkers: 2, ErrorTTL: time.Second, NotFoundTTL: time.Second, CleanupInterval: time.Hour, BusyTimeout: time.Hour}, clk, tally.NoopScope)
-	var mu sync.Mutex
-	inflight, maxInflight, runs := 0, 0, 0
+	rc := verifNewCache(clk, 4)
+	inflight, maxSeen, runs := 0, 0, 0
 	fail := verif.Bool("request_fails")
 	req := func() error {
-		mu.Lock()
-		inflight++
 		runs++
-		if inflight > maxInflight {
-			maxInflight = inflight
+		inflight++
+		if inflight > maxSeen {
+			maxSeen = inflight
 		}
-		mu.Unlock()
 		verif.Yield()
-		mu.Lock()
 		inflight--
-		mu.Unlock()
 		if fail {
-			return errors.New("boom")
+			return verifErrBoom
 		}
 		return nil
 	}
-	var wg sync.WaitGroup
-	results := make([]error, 2)
-	for i := 0; i < 2; i++ {
-		wg.Add(1)
-		i := i
-		go func() {
-			defer wg.Done()
-			results[i] = rc.Start("k", req)
-		}()
+	r1 := rc.Start("k", req)
+	r2 := rc.Start("k", req)
+	verif.Assert("first-accepted", r1 == nil)
+	verif.Assert("second-is-accepted-pending-or-cached-error", r2 == nil || r2 == ErrRequestPending || (fail && r2 == verifErrBoom))
+	verif.Cover("second-start-rejected-as-pending", r2 == ErrRequestPending)
+	verif.Cover("second-start-accepted", r2 == nil)
+	// drain: let every runner finish
+	for i := 0; i < 8; i++ {
+		verif.Yield()
 	}
-	wg.Wait()
-	mu.Lock()
-	verif.Assert("at-most-one-in-flight", maxInflight <= 1)
-	started := 0
-	for _, r := range results {
-		if r == nil {
-			started++
-		}
+	verif.Assert("at-most-one-in-flight", maxSeen <= 1)
+	accepted := 1
+	if r2 == nil {
+		accepted = 2
 	}
-	verif.Assert("runs-bounded-by-accepted-starts", runs <= started)
-	verif.Cover("second-start-rejected-as-pending", results[0] == ErrRequestPending || results[1] == ErrRequestPending)
-	mu.Unlock()
+	verif.Assert("runs-bounded-by-accepted-starts", runs <= accepted)
+}
+
+// VerifRequestCacheWorkersBusy: with every worker occupied, Start reports
+// ErrWorkersBusy once the busy timeout passes, does not run the request, and
+// leaves nothing pending for the key: a later Start for it is not rejected as
+// pending.
+func VerifRequestCacheWorkersBusy() {
+	verif.Option("max_preempt", verif.Bound("preemptions", 1, 2))
+	clk := verifBusyClock{clock.NewMock()}
+	rc := verifNewCache(clk, 1)
+	inflight, maxSeen := 0, 0
+	a := verifNewReq(nil, &inflight, &maxSeen)
+	b := verifNewReq(nil, &inflight, &maxSeen)
+	verif.Assume(rc.Start("a", a.run) == nil) // (the timeout may also win the select: not the case of interest)
+
+	// the only worker is occupied by a until its gate opens
+	r := rc.Start("b", b.run)
+	verif.Assert("no-free-worker-reported", r == ErrWorkersBusy)
+	r2 := rc.Start("b", b.run)
+	verif.Assert("busy-start-left-nothing-pending", r2 != ErrRequestPending)
+	verif.Assert("second-busy-start-is-busy-again", r2 == ErrWorkersBusy)
+	verif.Assert("busy-starts-did-not-run", b.runs == 0)
+	close(a.gate)
+	<-a.done
+	for i := 0; i < 4; i++ { // let a's runner give the worker back
+		verif.Yield()
+	}
+	r3 := rc.Start("b", b.run)
+	verif.Assert("later-start-is-not-pending", r3 == nil || r3 == ErrWorkersBusy)
+	verif.Cover("later-start-accepted", r3 == nil)
+	if r3 == nil {
+		close(b.gate)
+		<-b.done
+	}
+	verif.Assert("a-ran-once", a.runs == 1)
+	verif.Assert("b-ran-only-if-accepted", (r3 == nil && b.runs == 1) || (r3 != nil && b.runs == 0))
 }
